@@ -332,6 +332,16 @@ pub fn gen_scenario(rng: &mut Rng, with_signal: bool) -> Scenario {
         calls.push(PlannedCall { conn, start_ms: t + rng.below(3), shape, script, id });
         specs.push(spec);
     }
+    // a configured request timeout longer than every handler future must change nothing (streams
+    // legitimately outlive it); request gaps are removed so no handler future can reach it
+    let server_timeout = if with_signal && rng.chance(1, 4) {
+        for sp in specs.iter_mut() {
+            sp.req_gaps_ms.clear();
+        }
+        Some(Duration::from_millis(40))
+    } else {
+        None
+    };
     let small = rng.bool();
     let server_window = if small && !matches!(signal, Signal::WhenTaken(_)) { Some(*rng.pick(&[1u32, 7, 9, 64, 1000])) } else { None };
     // connections that carry pre-planned calls are established up front when the server window is
@@ -351,14 +361,14 @@ pub fn gen_scenario(rng: &mut Rng, with_signal: bool) -> Scenario {
         client_window: if small { Some(*rng.pick(&[1u32, 7, 9, 64, 1000])) } else { None },
         max_frame: if rng.chance(1, 3) { Some(16384) } else { None },
         seed: rng.u64(),
-        server_timeout: None,
+        server_timeout,
         endpoint_timeout: None,
     }
 }
 
 pub fn scenario_json(sc: &Scenario) -> serde_json::Value {
     json!({"conns": sc.conns, "signal": format!("{:?}", sc.signal), "keep_clients": sc.keep_clients, "pipe": format!("{:?}", sc.pipe_cfg),
-        "server_window": sc.server_window, "client_window": sc.client_window,
+        "server_window": sc.server_window, "client_window": sc.client_window, "server_timeout_ms": sc.server_timeout.map(|d| d.as_millis() as u64),
         "calls": sc.calls.iter().map(|c| json!({"id": c.id, "conn": c.conn, "start_ms": c.start_ms, "shape": format!("{:?}", c.shape), "script": script_json(&c.script),
             "latency_ms": c.script.latency_ms, "gaps_ms": c.script.gaps_ms, "end_gap_ms": c.script.end_gap_ms})).collect::<Vec<_>>()})
 }
@@ -366,7 +376,7 @@ pub fn scenario_json(sc: &Scenario) -> serde_json::Value {
 pub fn run(cfg: &RunCfg) -> Ctx {
     let mut all = Ctx::new();
     all.merge(par_cases(cfg, "shutdown", cfg.n(1200, 16 * 2500), || (), |_, rng, ctx, _| case(rng, ctx)));
-    for k in ["phase.pre-headers", "phase.mid-stream", "phase.done", "phase.not-started", "scen.no_call_in_flight", "scen.post_signal_call", "scen.signal_with_accept", "scen.kept_idle_clients", "observed.accepted_calls_completed"] {
+    for k in ["phase.pre-headers", "phase.mid-stream", "phase.done", "phase.not-started", "scen.no_call_in_flight", "scen.post_signal_call", "scen.signal_with_accept", "scen.kept_idle_clients", "scen.server_timeout_configured", "observed.accepted_calls_completed"] {
         all.floor(k, 3);
     }
     all
@@ -474,6 +484,9 @@ fn case(rng: &mut Rng, ctx: &mut Ctx) {
     }
     if sc.keep_clients {
         ctx.count("scen.kept_idle_clients");
+    }
+    if sc.server_timeout.is_some() {
+        ctx.count("scen.server_timeout_configured");
     }
     if matches!(sc.signal, Signal::WhenTaken(_)) {
         ctx.count("scen.signal_with_accept");
